@@ -79,7 +79,8 @@ package blob
 // and the service's lifecycle context. While a retrieval keeps failing, the retry loop may go round
 // again only if, at the start of that attempt, neither source was cancelled (a cancellation that
 // happened before an attempt started ends the stream after that attempt at the latest). The retrieval
-// is made for the header that was just received.
+// is made for the header that was just received, and the stream goes on to the next header (having sent
+// a response for this one) only after a retrieval for it succeeded.
 // (getAll fans out over namespaces in goroutines; it does not write the service)
 //@ func (*Service).getAll
 //@   property C20
@@ -89,5 +90,6 @@ package blob
 //@   property C20
 //@   noframe
 //@   callpre Service).getAll: $arg2 == header
+//@   loop 1: backedge err == nil
 //@   loop 2: backedge !head(ctxDone(ctx))
 //@   loop 2: backedge !head(ctxDone(s.ctx))
